@@ -267,6 +267,8 @@ func checkC05(c *Ctx) {
 	collectorRecursion(c, "R05h")
 	r.Rule("R05j", "codec emitters are called on every successful path of generateFile (not behind the no-services return)", 2)
 	codecEmittersUnconditional(c, "R05j")
+	r.Rule("R05l", "flattened discriminated oneof: every arm of the emitted decoder sets the oneof unconditionally (corpus, both plugins)", 2)
+	flattenedArmsSetOneof(c, "R05l")
 	r.Rule("R05k", "bytes decoded by a child's own UnmarshalJSON are not re-decoded by the final protojson decode", 2)
 	customFormReachesProtojson(c, "R05k")
 }
